@@ -67,4 +67,56 @@ theorem mp32_units (mode : Bcast) (a₁ a₂ : ND K) {o1 o2 O : List ℕ} {k p n
   simp only [stackAt, matAt, Matrix.mul_apply]
   rw [hg bix v.1 r.1 cc.1 hv v.2 r.2 cc.2, sum_map_range]
 
+/-! ### ND-side lemmas for lifting entrywise formulas (used by the Lie-map liftings of C17 too) -/
+
+/-- `a[..., i, j]` (numpy basic indexing on the last two axes) is entry `(i, j)` of every unit matrix -/
+theorem entryLast2_spec (a : ND K) {o : List ℕ} {p n : ℕ} (hs : a.shape = o ++ [p, n]) {i j : ℕ}
+    (hi : i < p) (hj : j < n) :
+    ((a.selectLast j).selectLast i).shape = o ∧
+    ∀ ix, Valid o ix → ((a.selectLast j).selectLast i).get ix = matAt a p n ix ⟨i, hi⟩ ⟨j, hj⟩ := by
+  have hs' : a.shape = (o ++ [p]) ++ [n] := by rw [hs]; simp
+  have h1 := shape_selectLast a hs' j
+  refine ⟨shape_selectLast _ h1 i, fun ix hix => ?_⟩
+  rw [get_selectLast _ h1 i hix, get_selectLast a hs' j (hix.append (by simpa using hi))]
+  simp [matAt]
+
+/-- entrywise binary ufunc on two arrays of matrices of one shape: unit by unit, entry by entry -/
+theorem zipSame_mat (f : K → K → K) (a b : ND K) {o : List ℕ} {p n : ℕ} (ha : a.shape = o ++ [p, n])
+    (hb : b.shape = o ++ [p, n]) :
+    ∃ c, zipBcast f a b = .ok c ∧ c.shape = o ++ [p, n] ∧
+      ∀ i, Valid o i → matAt c p n i = fun r cc => f (matAt a p n i r cc) (matAt b p n i r cc) := by
+  obtain ⟨c, hc, hs, _, hg⟩ := zipBcast_same f a b ha hb
+  refine ⟨c, hc, hs, fun i hi => ?_⟩
+  funext r cc
+  simp only [matAt]
+  exact hg _ (hi.append (by simp [r.2, cc.2]))
+
+theorem zipSame_row (f : K → K → K) (a b : ND K) {o : List ℕ} {n : ℕ} (ha : a.shape = o ++ [n])
+    (hb : b.shape = o ++ [n]) :
+    ∃ c, zipBcast f a b = .ok c ∧ c.shape = o ++ [n] ∧
+      ∀ i, Valid o i → rowAt c n i = fun cc => f (rowAt a n i cc) (rowAt b n i cc) := by
+  obtain ⟨c, hc, hs, _, hg⟩ := zipBcast_same f a b ha hb
+  refine ⟨c, hc, hs, fun i hi => ?_⟩
+  funext cc
+  simp only [rowAt]
+  exact hg _ (hi.append (by simp [cc.2]))
+
+/-- the same for arrays of scalars (one scalar per unit) -/
+theorem zipSame_scalar (f : K → K → K) (a b : ND K) {o : List ℕ} (ha : a.shape = o) (hb : b.shape = o) :
+    ∃ c, zipBcast f a b = .ok c ∧ c.shape = o ∧ c.WF ∧
+      ∀ i, Valid o i → scalarAt c i = f (scalarAt a i) (scalarAt b i) := by
+  obtain ⟨c, hc, hs, hwf, hg⟩ := zipBcast_same f a b ha hb
+  exact ⟨c, hc, hs, hwf, fun i hi => hg i hi⟩
+
+/-- `np.stack([s₀, …, s_{m-1}], axis=-1)` of arrays of scalars is the array of row vectors
+`(s₀[i], …, s_{m-1}[i])`; stacking such rows once more (`axis=-2` of the result, i.e. again a new
+trailing-but-one axis) builds matrices entry by entry -/
+theorem stackLast_row (a : ND K) (rest : List (ND K)) (h : ∀ b ∈ rest, b.shape = a.shape) :
+    ∃ c, ND.stack (a :: rest) a.shape.length = .ok c ∧ c.shape = a.shape ++ [rest.length + 1] ∧
+      ∀ i, Valid a.shape i → rowAt c (rest.length + 1) i = fun k => ((a :: rest).getD k.1 a).get i := by
+  obtain ⟨c, hc, hs, hg⟩ := stackLast_spec a rest h
+  refine ⟨c, hc, hs, fun i hi => ?_⟩
+  funext k
+  exact hg i k.1 hi k.2
+
 end GT.Act
